@@ -3,6 +3,7 @@ package main
 import (
 	"flag"
 	"fmt"
+	"math"
 	"sort"
 	"sync"
 	"time"
@@ -112,6 +113,10 @@ func metricsRandom(args []string) int {
 		d.emit(&metEv{Op: "reset"})
 		var counters []*metrics.Counter
 		var hists []*metrics.Histogram
+		scale := 1.0
+		if t%2 == 1 {
+			scale = 1024
+		}
 		if t%3 == 2 {
 			if t%2 == 0 {
 				monitoredDBTrace(d, r, *length)
@@ -171,11 +176,16 @@ func metricsRandom(args []string) int {
 			case x < 88:
 				h := hists[r.Intn(len(hists))]
 				v := []int{0, 1, 2, 3, 7, 10, 11, 60, 250, 999, 10000, 10001, 500000}[r.Intn(13)]
-				h.Observe(float64(v))
+				// (every other trace observes v/1024 - an exact binary fraction, as durations in milliseconds are - and reads
+				// the sum back in units of 1/1024)
+				h.Observe(float64(v) / scale)
 				d.emit(&metEv{Op: "observe", SID: d.sid(h), V: v})
 			default:
 				h := hists[r.Intn(len(hists))]
-				ev := &metEv{Op: "hread", SID: d.sid(h), Count: h.Count(), Sum: int64(h.Sum())}
+				ev := &metEv{Op: "hread", SID: d.sid(h), Count: h.Count(), Sum: int64(math.Round(h.Sum() * scale))}
+				if h.Sum()*scale != math.Round(h.Sum()*scale) {
+					ev.Sum = -1 // not the exact sum of the observations
+				}
 				for _, p := range []int{0, 1, 25, 50, 75, 90, 95, 99, 100} {
 					ev.Pcts = append(ev.Pcts, []int{p, int(h.Percentile(float64(p))*10 + 0.5)})
 				}
